@@ -5,7 +5,6 @@ import (
 	"github.com/go-i2p/common/certificate"
 	"github.com/go-i2p/common/destination"
 	"github.com/go-i2p/common/key_certificate"
-	"github.com/go-i2p/common/keys_and_cert"
 	"github.com/go-i2p/common/lease"
 	sig "github.com/go-i2p/common/signature"
 	"github.com/go-i2p/crypto/dsa"
@@ -86,14 +85,12 @@ func validateDestinationDataSize(dataLen, destinationLength int) error {
 // Returns the destination, remaining data, and any error encountered.
 func extractDestinationFromData(data []byte, destinationLength int) (destination.Destination, []byte, error) {
 	destinationData := data[:destinationLength]
-	keysAndCert, _, err := keys_and_cert.ReadKeysAndCert(destinationData)
+	// ReadDestination (not ReadKeysAndCert) so that the key types prohibited in a
+	// Destination are rejected here exactly as they are everywhere else.
+	dest, _, err := destination.ReadDestination(destinationData)
 	if err != nil {
-		log.WithError(err).Error("Failed to read KeysAndCert")
+		log.WithError(err).Error("Failed to read Destination")
 		return destination.Destination{}, nil, err
-	}
-
-	dest := destination.Destination{
-		KeysAndCert: keysAndCert,
 	}
 	remainder := data[destinationLength:]
 
